@@ -15,6 +15,7 @@ def run(repo, res, tier):
         "block names. Not decided: alignment of '=' and indentation arithmetic for particular modules.")
     encrules.rule_c12_config(repo, res)
     encrules.rule_c12_structure(repo, res)
+    encrules.rule_level_forwarding(repo, res)
     tablerules.rule_tb5(repo, res)
     encrules.rule_w1(repo, res, which=("symbol", "flags"))
     an = langrules.analyse(repo)
